@@ -41,6 +41,355 @@ def _strs(xs) -> str:
     return "[" + ", ".join(_s(x) for x in xs) + "]"
 
 
+# ---- data-flow readers of the normalisation plans and their order ---------------------------------------
+from . import c09_inline as inl  # noqa: E402
+
+
+def _tree(file):
+    from ..pyexpr import parse_file
+    return parse_file(_repo() / file)
+
+
+def _ifn(file, qual):
+    """the function with private helpers of its class / module inlined"""
+    return inl.inlined(_tree(file), qual)
+
+
+def _self_ints(tree, cls):
+    from ..pyexpr import find_function
+    fn = find_function(tree, f"{cls}.__init__")
+    out = {}
+    for st in ast.walk(fn):
+        if isinstance(st, ast.Assign) and isinstance(st.targets[0], ast.Attribute) and ast.unparse(st.targets[0].value) == "self":
+            v = _num(st.value)
+            if isinstance(v, int):
+                out["self." + st.targets[0].attr] = v
+    return out
+
+
+def _axis(node, env):
+    v = _num(node)
+    if isinstance(v, int):
+        return v
+    t = ast.unparse(node)
+    if t in env:
+        return env[t]
+    raise Untranslatable(f"axis `{t}` is not a known integer")
+
+
+def _strip_unsqueeze(node, env):
+    axes = []
+    while True:
+        if isinstance(node, ast.Call) and isinstance(node.func, ast.Attribute) and node.func.attr == "unsqueeze" and len(node.args) + len(node.keywords) == 1:
+            axes.append(_axis(node.args[0] if node.args else node.keywords[0].value, env))
+            node = node.func.value
+        elif isinstance(node, ast.Call) and ast.unparse(node.func) == "torch.unsqueeze" and len(node.args) == 2:
+            axes.append(_axis(node.args[1], env))
+            node = node.args[0]
+        else:
+            break
+    axes.reverse()
+    return node, axes
+
+
+def _sum_chain(node, env):
+    """`(V ** e).sum(A).sum(B)` / `torch.sum(…, A)` / `.sum(dim=A)` -> (V node, e, [A, B])"""
+    axes = []
+    while True:
+        if isinstance(node, ast.Call) and isinstance(node.func, ast.Attribute) and node.func.attr == "sum" and not ast.unparse(node.func.value) == "torch":
+            kw = [k for k in node.keywords if k.arg in ("dim", "axis")]
+            arg = node.args[0] if node.args else (kw[0].value if kw else None)
+            if arg is None or len(node.args) + len(node.keywords) != 1:
+                raise Untranslatable(f"sum `{ast.unparse(node)[:50]}`")
+            axes.append(_axis(arg, env))
+            node = node.func.value
+        elif isinstance(node, ast.Call) and ast.unparse(node.func) == "torch.sum" and len(node.args) + len(node.keywords) == 2:
+            kw = [k for k in node.keywords if k.arg in ("dim", "axis")]
+            axes.append(_axis(node.args[1] if len(node.args) == 2 else kw[0].value, env))
+            node = node.args[0]
+        else:
+            break
+    axes.reverse()
+    if isinstance(node, ast.BinOp) and isinstance(node.op, ast.Pow) and isinstance(_num(node.right), int):
+        return node.left, _num(node.right), axes
+    if isinstance(node, ast.BinOp) and isinstance(node.op, ast.Mult) and ast.dump(node.left) == ast.dump(node.right):
+        return node.left, 2, axes
+    raise Untranslatable(f"summand `{ast.unparse(node)[:50]}` is not a power")
+
+
+def _rss_call_plan(call, env):
+    """plan of `root_sum_of_squares(V, dim=…)` read from its definition -> (V node, sqrt, e, axes)"""
+    rss = _fn(T, "root_sum_of_squares")
+    names = [a.arg for a in rss.args.args]
+    params = dict(zip(names[len(names) - len(rss.args.defaults):], rss.args.defaults))
+    loc = {}
+    for pname in ("dim", "complex_dim"):
+        kw = [k.value for k in call.keywords if k.arg == pname]
+        pos = names.index(pname)
+        node = kw[0] if kw else (call.args[pos] if len(call.args) > pos else params.get(pname))
+        if node is None:
+            raise Untranslatable(f"root_sum_of_squares argument `{pname}`")
+        loc[pname] = _axis(node, env)
+    ret = None
+    for st in rss.body:
+        if isinstance(st, ast.If) and "is_complex_data" in ast.unparse(st.test):
+            ret = [x for x in st.body if isinstance(x, ast.Return)]
+    if not ret:
+        raise Untranslatable("complex branch of root_sum_of_squares not found")
+    sq, core = _strip_sqrt(ret[0].value)
+    v, e, axes = _sum_chain(core, loc)
+    if ast.unparse(v) != names[0]:
+        raise Untranslatable("root_sum_of_squares does not square its first argument")
+    return call.args[0] if call.args else None, sq, e, axes
+
+
+def _strip_sqrt(node):
+    if isinstance(node, ast.Call) and ast.unparse(node.func) == "torch.sqrt" and len(node.args) == 1:
+        return True, node.args[0]
+    if isinstance(node, ast.Call) and isinstance(node.func, ast.Attribute) and node.func.attr == "sqrt" and not node.args:
+        return True, node.func.value
+    if isinstance(node, ast.BinOp) and isinstance(node.op, ast.Pow) and _num(node.right) == 0.5:
+        return True, node.left
+    return False, node
+
+
+def _divisor(d_resolved, env):
+    """resolved divisor -> (kind 'rss'|'norm', V text, (sqrt, e, sum axes, unsqueeze axes))"""
+    core, uns = _strip_unsqueeze(d_resolved, env)
+    if isinstance(core, ast.Call) and ast.unparse(core.func).endswith("root_sum_of_squares"):
+        v, sq, e, axes = _rss_call_plan(core, env)
+        return "rss", ast.unparse(v), (sq, e, axes, uns)
+    sq, inner = _strip_sqrt(core)
+    v, e, axes = _sum_chain(inner, env)
+    return "norm", ast.unparse(v), (sq, e, axes, uns)
+
+
+MAPS = "<maps>"          # stands for the variable that carries the map through the branches / the refinement
+_MAP_NAMES: set = set()
+
+
+def _canon(text: str) -> str:
+    import re
+    for n in sorted(_MAP_NAMES, key=len, reverse=True):
+        text = re.sub(rf"\b{re.escape(n)}\b", MAPS, text)
+    return text
+
+
+def _div_event(c, block, i, env):
+    """`safe_divide(N, D)` -> ('safe_divide:<N resolved>/<rss|norm>(same|<V>)', plan) by data flow"""
+    num = ast.unparse(inl.resolve(c.args[0], block, i))
+    try:
+        kind, v, plan = _divisor(inl.resolve(c.args[1], block, i), env)
+        return f"safe_divide:{_canon(num)}/{kind}({'same' if v == num else _canon(v)})", plan
+    except Untranslatable:
+        return f"safe_divide:{_canon(num)}/stale-or-unknown({_canon(ast.unparse(c.args[1]))[:40]})", None
+
+
+def _branch_var(fn):
+    """the name every branch of the top-level if-chain of `forward` assigns (the map before the common tail)"""
+    top = [st for st in fn.body if isinstance(st, ast.If)]
+    if len(top) != 1:
+        raise Untranslatable(f"{len(top)} top-level if statements in forward")
+    branches, node = [], top[0]
+    while True:
+        branches.append(node.body)
+        if len(node.orelse) == 1 and isinstance(node.orelse[0], ast.If):
+            node = node.orelse[0]
+        else:
+            branches.append(node.orelse)
+            break
+    common = None
+    for b in branches:
+        names = {t.id for st in b for n in ast.walk(st) if isinstance(n, ast.Assign) for t in n.targets if isinstance(t, ast.Name)}
+        common = names if common is None else common & names
+    if not common:
+        raise Untranslatable("the branches of forward assign no common variable")
+    return common
+
+
+def _blocks(stmts):
+    """every statement list of a function body, nested ones included"""
+    yield stmts
+    for st in stmts:
+        for field in ("body", "orelse", "finalbody"):
+            sub = getattr(st, field, None)
+            if isinstance(sub, list) and sub and isinstance(sub[0], ast.stmt):
+                yield from _blocks(sub)
+
+
+def _safe_divides(stmts, env):
+    """every `safe_divide(N, D)` in source order with its data-flow reading:
+    (event string, plan or None, statement, block, index)"""
+    out = []
+    for block in _blocks(stmts):
+        for i, st in enumerate(block):
+            if isinstance(st, (ast.If, ast.For, ast.While, ast.With, ast.Try)):
+                continue
+            for c in [n for n in ast.walk(st) if isinstance(n, ast.Call) and ast.unparse(n.func).endswith("safe_divide") and len(n.args) == 2]:
+                ev, plan = _div_event(c, block, i, env)
+                out.append((ev, plan, st, block, i, getattr(c, "lineno", 0)))
+    out.sort(key=lambda r: getattr(r[2], "lineno", 0))
+    return out
+
+
+def _module_env():
+    env = _self_ints(_tree("direct/utils/__init__.py"), "DirectModule")
+    if "self.coil_dim" not in env or "self.complex_dim" not in env:
+        raise Untranslatable("DirectModule.__init__ does not set coil_dim / complex_dim to integers")
+    return env
+
+
+def _engine_env():
+    env = _self_ints(_tree(ENG), "MRIModelEngine")
+    if "self._coil_dim" not in env or "self._complex_dim" not in env:
+        raise Untranslatable("MRIModelEngine.__init__ does not set _coil_dim / _complex_dim to integers")
+    return env
+
+
+def _rss_branch(fn):
+    for st in fn.body:
+        node = st
+        while isinstance(node, ast.If):
+            if "RSS_ESTIMATE" in ast.unparse(node.test):
+                return node.body
+            node = node.orelse[0] if len(node.orelse) == 1 and isinstance(node.orelse[0], ast.If) else None
+    raise Untranslatable("RSS_ESTIMATE branch not found")
+
+
+def _plan_def(name, doc, plan):
+    sq, e, axes, uns = plan
+    li = lambda xs: "[" + ", ".join(str(x) for x in xs) + "]"  # noqa: E731
+    return (f"/-- translated from {doc}: (sqrt applied, exponent, sum axes, unsqueeze axes) -/\n"
+            f"def {name} : Bool × Int × List Int × List Int := ({'true' if sq else 'false'}, {e}, {li(axes)}, {li(uns)})\n")
+
+
+def _output_write(fn):
+    """the statement that writes the output key of `forward` (block, index, value)"""
+    hits = []
+    for block in _blocks(fn.body):
+        for i, st in enumerate(block):
+            if isinstance(st, ast.Assign) and ast.unparse(st.targets[0]) in ("sample['sensitivity_map']", 'sample["sensitivity_map"]'):
+                hits.append((block, i, st))
+    return hits
+
+
+def _forward_fn():
+    fn = _ifn(MT, "EstimateSensitivityMapModule.forward")
+    _MAP_NAMES.clear()
+    _MAP_NAMES.update(_branch_var(fn))
+    return fn
+
+
+def _engine_fn():
+    fn = _ifn(ENG, "MRIModelEngine.compute_sensitivity_map")
+    _MAP_NAMES.clear()
+    if len(fn.args.args) != 2:
+        raise Untranslatable("compute_sensitivity_map(self, maps) expected")
+    _MAP_NAMES.add(fn.args.args[1].arg)
+    return fn
+
+
+RSS_EVENT = "safe_divide:self.estimate_acs_image(sample)/rss(same)"
+TAIL_EVENT = f"safe_divide:{MAPS}/norm(same)"
+
+
+def b_rss_plan():
+    env = _module_env()
+    fn = _forward_fn()
+    divs = [d for d in _safe_divides(_rss_branch(fn), env) if d[1] is not None and "/rss(" in d[0]]
+    if len(divs) != 1:
+        raise Untranslatable("no `safe_divide(x, unsqueeze(root_sum_of_squares(x)))` in the RSS branch")
+    if divs[0][0] != RSS_EVENT:
+        raise Untranslatable(f"RSS division is `{divs[0][0]}`")
+    return _plan_def("estimate_rss_plan", f"`{MT}`:`EstimateSensitivityMapModule.forward` (RSS) + `{T}`:`root_sum_of_squares`", divs[0][1])
+
+
+def b_norm_plan():
+    env = _module_env()
+    fn = _forward_fn()
+    w = _output_write(fn)
+    if len(w) != 1:
+        raise Untranslatable(f"{len(w)} writes of sample['sensitivity_map']")
+    block, i, st = w[0]
+    val = inl.resolve(st.value, block, i)
+    if not (isinstance(val, ast.Call) and ast.unparse(val.func).endswith("safe_divide") and len(val.args) == 2):
+        raise Untranslatable("the output is not a safe_divide")
+    kind, v, plan = _divisor(inl.resolve(val.args[1], block, i), env)
+    if kind != "norm" or v != ast.unparse(val.args[0]):
+        raise Untranslatable("the output divisor is not the norm of the numerator")
+    return _plan_def("estimate_norm_plan", f"`{MT}`:`EstimateSensitivityMapModule.forward` (renormalisation)", plan)
+
+
+def b_order():
+    env = _module_env()
+    fn = _forward_fn()
+    ev = [d[0] for d in _safe_divides(_rss_branch(fn), env)]
+    tail = [st for st in fn.body if not isinstance(st, ast.If)]
+    # the tail is read in its top-level block so that definitions made there are visible
+    ev += [d[0] for d in _safe_divides(fn.body, env) if any(d[2] is t for t in tail)]
+    return (f"/-- translated from `{MT}`:`EstimateSensitivityMapModule.forward`: the guarded divisions of the RSS branch and of the "
+            f"tail, each with what its divisor is by data flow -/\n"
+            f"def estimate_order : List String := {_strs(ev)}\n")
+
+
+def _engine_return(fn, env):
+    rets = [(b, i, st) for b in _blocks(fn.body) for i, st in enumerate(b) if isinstance(st, ast.Return)]
+    if len(rets) != 1 or rets[0][0] is not fn.body:
+        raise Untranslatable("compute_sensitivity_map: expected a single top-level return")
+    block, i, st = rets[0]
+    val = inl.resolve(st.value, block, i)
+    return block, i, val
+
+
+def b_eng_plan():
+    env = _engine_env()
+    fn = _engine_fn()
+    block, i, val = _engine_return(fn, env)
+    if not (isinstance(val, ast.Call) and ast.unparse(val.func).endswith("safe_divide") and len(val.args) == 2):
+        raise Untranslatable("the returned value is not a safe_divide")
+    kind, v, plan = _divisor(inl.resolve(val.args[1], block, i), env)
+    if kind != "norm" or v != ast.unparse(val.args[0]):
+        raise Untranslatable("the returned divisor is not the norm of the numerator")
+    return _plan_def("engine_norm_plan", f"`{ENG}`:`MRIModelEngine.compute_sensitivity_map`", plan)
+
+
+def b_eng_order():
+    env = _engine_env()
+    fn = _engine_fn()
+    block, i, val = _engine_return(fn, env)
+    ev = []
+    refine_lines = [n.lineno for st in fn.body[:i] for n in ast.walk(st)
+                    if isinstance(n, ast.Call) and ast.unparse(n.func).endswith("compute_model_per_coil")]
+    if refine_lines:
+        ev.append("refine")
+    if isinstance(val, ast.Call) and ast.unparse(val.func).endswith("safe_divide") and len(val.args) == 2:
+        ev.append(_div_event(val, block, i, env)[0])
+    else:
+        ev.append("return-other:" + _canon(ast.unparse(val))[:60])
+    # multicoil guard: `<map>.shape[coil_dim] > k` / `.size(coil_dim) > k`, possibly through a local
+    thr = None
+    for b in _blocks(fn.body):
+        for j, st in enumerate(b):
+            if isinstance(st, ast.Assign) and ast.unparse(st.targets[0]) == "multicoil":
+                c = st.value
+                if isinstance(c, ast.Compare) and len(c.ops) == 1 and isinstance(c.ops[0], ast.Gt) and isinstance(_num(c.comparators[0]), int):
+                    left = c.left
+                    ax = None
+                    if isinstance(left, ast.Subscript) and ast.unparse(left.value).endswith(".shape"):
+                        ax = _axis(left.slice, env)
+                    elif isinstance(left, ast.Call) and isinstance(left.func, ast.Attribute) and left.func.attr == "size" and len(left.args) == 1:
+                        ax = _axis(left.args[0], env)
+                    if ax == env["self._coil_dim"]:
+                        thr = _num(c.comparators[0])
+    if thr is None:
+        raise Untranslatable("multicoil guard not understood")
+    return (f"/-- translated from `{ENG}`:`MRIModelEngine.compute_sensitivity_map`: refinement (if any) precedes the guarded division "
+            f"by the norm of what is returned -/\n"
+            f"def engine_order : List String := {_strs(ev)}\n"
+            f"/-- refinement only when `shape[coil_dim] > engine_multicoil_gt` -/\n"
+            f"def engine_multicoil_gt : Int := {thr}\n")
+
+
 # ---- the Gaussian window --------------------------------------------------------------------------
 def _window_if(fn):
     for st in fn.body:
@@ -49,52 +398,94 @@ def _window_if(fn):
     raise Untranslatable("the `gaussian_sigma` guard of estimate_acs_image not found")
 
 
+class _Probe:
+    def __init__(self, v):
+        self.gaussian_sigma = v
+
+
+SIGMA_PROBES = [("None", None), ("0", 0), ("0.0", 0.0), ("0.5", 0.5), ("-2.0", -2.0)]
+
+
+def _has_linspace(stmts) -> bool:
+    return any(isinstance(n, ast.Call) and ast.unparse(n.func) in ("torch.linspace", "np.linspace", "numpy.linspace")
+               for st in stmts for n in ast.walk(st))
+
+
 def b_window():
-    fn = _fn(MT, "EstimateSensitivityMapModule.estimate_acs_image")
-    node = _window_if(fn)
-    # guard: `self.gaussian_sigma == 0 or not self.gaussian_sigma` (either order) selects the plain branch
-    t = node.test
-    if not (isinstance(t, ast.BoolOp) and isinstance(t.op, ast.Or) and len(t.values) == 2):
-        raise Untranslatable(f"window guard `{ast.unparse(t)}`")
-    clauses = sorted(ast.unparse(v) for v in t.values)
-    assigns = [st for st in node.orelse if isinstance(st, ast.Assign) and ast.unparse(st.targets[0]) == "gaussian_mask"]
-    if len(assigns) < 2:
-        raise Untranslatable("window branch: fewer than two assignments to gaussian_mask")
-    lin, ex = assigns[0].value, assigns[1].value
-    if not (isinstance(lin, ast.Call) and ast.unparse(lin.func) == "torch.linspace" and len(lin.args) == 3
-            and isinstance(_num(lin.args[0]), int) and isinstance(_num(lin.args[1]), int)):
-        raise Untranslatable(f"window coordinates are not torch.linspace(a, b, n): `{ast.unparse(lin)[:60]}`")
-    # weight: exp(-((gaussian_mask / sigma) ** 2))
-    ok = (isinstance(ex, ast.Call) and ast.unparse(ex.func) == "torch.exp" and len(ex.args) == 1
-          and isinstance(ex.args[0], ast.UnaryOp) and isinstance(ex.args[0].op, ast.USub))
+    """semantic reading of the window of `estimate_acs_image` (helpers inlined): for which sigma values the window is
+    applied (the guard is *evaluated* on probe values), linspace end points, that the number of points is the size
+    along `width_dim`, that the exponent is -((x / sigma) ** 2), the axis, and the primitive that applies the ACS mask"""
+    fn = _ifn(MT, "EstimateSensitivityMapModule.estimate_acs_image")
+    guards = [(b, k, st) for b in _blocks(fn.body) for k, st in enumerate(b)
+              if isinstance(st, ast.If) and "gaussian_sigma" in ast.unparse(st.test) and (_has_linspace(st.body) != _has_linspace(st.orelse))]
+    if len(guards) != 1:
+        raise Untranslatable(f"{len(guards)} window guards in estimate_acs_image")
+    block, k, node = guards[0]
+    test = inl.resolve(node.test, block, k)
+    in_body = _has_linspace(node.body)
+    on = []
+    for label, v in SIGMA_PROBES:
+        try:
+            b = bool(eval(compile(ast.Expression(body=test), "<guard>", "eval"), {"__builtins__": {}}, {"self": _Probe(v)}))  # noqa: S307
+        except Exception as e:  # noqa: BLE001
+            raise Untranslatable(f"window guard `{ast.unparse(test)[:50]}` cannot be evaluated: {e}")
+        if b == in_body:
+            on.append(label)
+    wblock = node.body if in_body else node.orelse
+    # linspace call and the exp(-((x / sigma) ** 2)) around it, by data flow inside the window branch
+    lin = exp = None
+    for bb in _blocks(wblock):
+        for q, st in enumerate(bb):
+            for n in ast.walk(st):
+                if isinstance(n, ast.Call) and ast.unparse(n.func) == "torch.exp" and len(n.args) == 1 and exp is None:
+                    exp = inl.resolve(n.args[0], bb, q)
+                    # the steps / end points may be locals of the same block
+                    for m in ast.walk(exp):
+                        if isinstance(m, ast.Call) and ast.unparse(m.func) == "torch.linspace":
+                            lin = ast.Call(func=m.func, args=[inl.resolve(a, bb, q) for a in m.args], keywords=m.keywords)
+    if exp is None or lin is None or len(lin.args) != 3:
+        raise Untranslatable("exp(… linspace(a, b, n) …) not found in the window branch")
+    a, b_, steps = lin.args
+    if not (isinstance(_num(a), int) and isinstance(_num(b_), int)):
+        raise Untranslatable("linspace end points are not integer literals")
+    # number of points: X.size(D) / X.shape[D] with D the width_dim parameter
+    if isinstance(steps, ast.Call) and isinstance(steps.func, ast.Attribute) and steps.func.attr == "size" and len(steps.args) == 1:
+        dim = ast.unparse(steps.args[0])
+    elif isinstance(steps, ast.Subscript) and ast.unparse(steps.value).endswith(".shape"):
+        dim = ast.unparse(steps.slice)
+    else:
+        raise Untranslatable(f"number of window points `{ast.unparse(steps)[:40]}`")
+    # exponent: -((linspace / sigma) ** 2)
+    ok = isinstance(exp, ast.UnaryOp) and isinstance(exp.op, ast.USub)
     if ok:
-        pw = ex.args[0].operand
+        pw = exp.operand
         ok = (isinstance(pw, ast.BinOp) and isinstance(pw.op, ast.Pow) and _num(pw.right) == 2 and isinstance(pw.left, ast.BinOp)
-              and isinstance(pw.left.op, ast.Div) and ast.unparse(pw.left.left) == "gaussian_mask")
+              and isinstance(pw.left.op, ast.Div) and isinstance(pw.left.left, ast.Call) and ast.unparse(pw.left.left.func) == "torch.linspace")
     if not ok:
-        raise Untranslatable(f"window weight is not exp(-((gaussian_mask / s) ** 2)): `{ast.unparse(ex)[:60]}`")
-    sigma_txt = ast.unparse(ex.args[0].operand.left.right)
-    # the plain branch multiplies by the mask only; the window branch by mask and window
-    plain = [ast.unparse(st.value) for st in node.body if isinstance(st, ast.Assign) and ast.unparse(st.targets[0]) == "kspace_acs"]
-    wind = [ast.unparse(st.value) for st in node.orelse if isinstance(st, ast.Assign) and ast.unparse(st.targets[0]) == "kspace_acs"]
-    if len(plain) != 1 or len(wind) != 1:
-        raise Untranslatable("kspace_acs assignments")
-    # axis: default of width_dim, and the reshape puts the window on that axis
-    names = [a.arg for a in fn.args.args]
-    if "width_dim" not in names:
-        raise Untranslatable("no width_dim parameter")
+        raise Untranslatable(f"window weight is not exp(-((linspace / s) ** 2)): `{ast.unparse(exp)[:60]}`")
+    sigma_txt = ast.unparse(exp.operand.left.right)
+    names = [x.arg for x in fn.args.args]
+    if "width_dim" not in names or dim != "width_dim":
+        raise Untranslatable("the window does not run along the width_dim parameter")
     dflt = fn.args.defaults[names.index("width_dim") - (len(names) - len(fn.args.defaults))]
     axis = _num(dflt)
-    on_axis = any(isinstance(st, ast.Assign) and ast.unparse(st.targets[0]) == "gaussian_mask_shape[width_dim]" for st in node.orelse)
-    steps = ast.unparse(lin.args[2])
-    if not (isinstance(axis, int) and on_axis and "width_dim" in steps):
+    on_axis = any(isinstance(n, ast.Subscript) and isinstance(n.ctx, ast.Store) and ast.unparse(n.slice) == "width_dim"
+                  for st in wblock for n in ast.walk(st))
+    if not (isinstance(axis, int) and on_axis):
         raise Untranslatable("window axis")
-    return ("/-- translated from `estimate_acs_image`: linspace end points, number of points, divisor of the exponent -/\n"
-            f"def window_linspace : Int × Int × String × String := ({_num(lin.args[0])}, {_num(lin.args[1])}, {_s(steps)}, {_s(sigma_txt)})\n"
-            f"/-- the clauses of the guard that switches the window off -/\n"
-            f"def window_guard : List String := {_strs(clauses)}\n"
-            f"/-- what the plain / the window branch multiply the k-space by -/\n"
-            f"def window_products : String × String := ({_s(plain[0])}, {_s(wind[0])})\n"
+    # the primitive(s) that see the ACS mask
+    prims = sorted({ast.unparse(n.func) for n in ast.walk(fn) if isinstance(n, ast.Call)
+                    and any("acs_mask" in ast.unparse(x) for x in list(n.args) + [kw.value for kw in n.keywords])})
+    mult = [n for st in wblock for n in ast.walk(st) if isinstance(n, ast.BinOp) and isinstance(n.op, ast.Mult)]
+    if not mult:
+        raise Untranslatable("the window branch does not multiply")
+    return ("/-- translated from `estimate_acs_image` (helpers inlined): linspace end points, axis parameter of the number of points, "
+            "divisor of the exponent -/\n"
+            f"def window_linspace : Int × Int × String × String := ({_num(a)}, {_num(b_)}, {_s(dim)}, {_s(sigma_txt)})\n"
+            f"/-- the probe values of sigma (None, 0, 0.0, 0.5, -2.0) for which the window is applied: the guard evaluated -/\n"
+            f"def window_on_for : List String := {_strs(on)}\n"
+            f"/-- the primitives that receive the ACS mask -/\n"
+            f"def acs_mask_primitives : List String := {_strs(prims)}\n"
             f"/-- default of `width_dim` -/\n"
             f"def window_axis : Int := {axis}\n")
 
@@ -126,33 +517,36 @@ def b_apply_mask_where():
 
 
 WINDOW_FALLBACK = ("def window_linspace : Int × Int × String × String := windowLinspace\n"
-                   "def window_guard : List String := windowGuardClauses\n"
-                   "def window_products : String × String := windowProducts\n"
+                   "def window_on_for : List String := windowOnFor\n"
+                   "def acs_mask_primitives : List String := acsMaskPrimitives\n"
                    "def window_axis : Int := -2\n")
 
 
 # ---- forward: branch table --------------------------------------------------------------------------
 def b_forward_branches():
-    fn = _fn(MT, "EstimateSensitivityMapModule.forward")
+    env = _module_env()
+    fn = _forward_fn()
     top = [st for st in fn.body if isinstance(st, ast.If)]
-    if len(top) != 1:
-        raise Untranslatable(f"{len(top)} top-level if statements in forward")
     rows, node, limit = [], top[0], None
 
     def classify(body):
         last = None
-        for st in all_stmts(ast.Module(body=body, type_ignores=[])):
-            if isinstance(st, ast.Assign) and ast.unparse(st.targets[0]) == "sensitivity_map":
-                last = st.value
+        for bb in _blocks(body):
+            for q, st in enumerate(bb):
+                if isinstance(st, ast.Assign) and len(st.targets) == 1 and isinstance(st.targets[0], ast.Name) and st.targets[0].id in _MAP_NAMES:
+                    last = (bb, q, st)
         if last is None:
-            raise Untranslatable("a branch of forward does not assign sensitivity_map")
-        txt = ast.unparse(last)
+            raise Untranslatable("a branch of forward does not assign the map variable")
+        bb, q, st = last
+        val = inl.resolve(st.value, bb, q)
+        txt = ast.unparse(val)
         if "espirit_calibrator(" in txt:
             return "espirit_calibrator"
-        if isinstance(last, ast.Call) and ast.unparse(last.func).endswith("safe_divide") and len(last.args) == 2:
-            return "safe_divide:" + ast.unparse(last.args[0]) + "/" + ast.unparse(last.args[1])
-        if any(isinstance(st, ast.Assign) and isinstance(st.targets[0], ast.Subscript)
-               and ast.unparse(st.targets[0].value) == "sensitivity_map" for st in body) and "zeros" in "".join(ast.unparse(b) for b in body):
+        if isinstance(val, ast.Call) and ast.unparse(val.func).endswith("safe_divide") and len(val.args) == 2:
+            return _div_event(val, bb, q, env)[0]
+        fills = [n for x in body for n in ast.walk(x) if isinstance(n, ast.Assign) and isinstance(n.targets[0], ast.Subscript)
+                 and inl.root_name(n.targets[0]) in _MAP_NAMES]
+        if fills and ("zeros" in txt or "zeros" in "".join(ast.unparse(x) for x in body)):
             return "unit-fill"
         raise Untranslatable(f"branch value `{txt[:50]}`")
 
@@ -175,9 +569,14 @@ def b_forward_branches():
         break
     if not isinstance(limit, int):
         raise Untranslatable("rank limit of the ESPIRiT branch")
-    writes = [ast.unparse(st.value) for st in all_stmts(fn) if isinstance(st, ast.Assign)
-              and ast.unparse(st.targets[0]) in ("sample['sensitivity_map']", 'sample["sensitivity_map"]')]
-    return ("/-- translated from `forward`: (map type tested, what the branch leaves in `sensitivity_map`) -/\n"
+    writes = []
+    for block, q, st in _output_write(fn):
+        val = inl.resolve(st.value, block, q)
+        if isinstance(val, ast.Call) and ast.unparse(val.func).endswith("safe_divide") and len(val.args) == 2:
+            writes.append(_div_event(val, block, q, env)[0])
+        else:
+            writes.append("other:" + _canon(ast.unparse(val))[:60])
+    return ("/-- translated from `forward` (helpers inlined, data flow): (map type tested, what the branch leaves in the map variable) -/\n"
             "def forward_branches : List (String × String) := [" + ", ".join(f"({_s(a)}, {_s(b)})" for a, b in rows) + "]\n"
             f"/-- every value written to `sample['sensitivity_map']` -/\n"
             f"def forward_output_writes : List String := {_strs(writes)}\n"
@@ -199,35 +598,57 @@ NO_EARLY_RETURN = ("EstimateSensitivityMapModule.forward", "EstimateSensitivityM
 
 
 def effects_of(fn: ast.FunctionDef, qual: str):
+    """semantic effect rows of a function (private helpers already inlined): writes that reach an *input* (a parameter or
+    a view of one), writes of instance state, writes of sample keys, in-place calls on inputs, return structure.  Stores
+    and in-place operations on fresh locals are not effects."""
     rows = []
+    taint = inl.tainted_names(fn)
+    params = {a.arg for a in fn.args.args}
+
+    def is_sample(e):
+        return isinstance(e, ast.Subscript) and isinstance(e.value, ast.Name) and e.value.id in params and e.value.id != "self" \
+            and isinstance(e.slice, ast.Constant) and isinstance(e.slice.value, str)
+
     for n in ast.walk(fn):
         if isinstance(n, (ast.Assign, ast.AnnAssign, ast.AugAssign)):
             targets = n.targets if isinstance(n, ast.Assign) else [n.target]
             for t in targets:
                 for tt in (t.elts if isinstance(t, (ast.Tuple, ast.List)) else [t]):
+                    root = inl.root_name(tt)
                     if isinstance(n, ast.AugAssign):
-                        rows.append((qual, "augassign", ast.unparse(tt)))
-                    elif isinstance(tt, ast.Attribute):
-                        rows.append((qual, "attr-store", ast.unparse(tt)))
-                    elif isinstance(tt, ast.Subscript):
-                        rows.append((qual, "subscript-store", ast.unparse(tt) if ast.unparse(tt.value) == "sample" else ast.unparse(tt.value)))
+                        if root in taint:
+                            rows.append((qual, "input-augassign", "param" if root in params else "view-of-param"))
+                    elif isinstance(tt, ast.Attribute) and root == "self":
+                        rows.append((qual, "state-store", ast.unparse(tt)))
+                    elif is_sample(tt):
+                        rows.append((qual, "dict-key-write", tt.slice.value))
+                    elif isinstance(tt, (ast.Subscript, ast.Attribute)) and root in taint:
+                        rows.append((qual, "input-store", "param" if root in params else "view-of-param"))
         elif isinstance(n, ast.Call) and isinstance(n.func, ast.Attribute) and n.func.attr.endswith("_") and not n.func.attr.endswith("__"):
-            rows.append((qual, "inplace-call", ast.unparse(n.func)))
+            if inl.root_name(n.func.value) in taint:
+                rows.append((qual, "input-inplace-call", n.func.attr))
         elif isinstance(n, ast.Call) and any(k.arg == "out" for k in n.keywords):
             rows.append((qual, "out-kwarg", ast.unparse(n.func)))
-        elif isinstance(n, (ast.Global, ast.Nonlocal, ast.Delete)):
+        elif isinstance(n, (ast.Global, ast.Nonlocal)):
             rows.append((qual, type(n).__name__.lower(), ast.unparse(n)))
+        elif isinstance(n, ast.Delete) and any(inl.root_name(t) in taint for t in n.targets):
+            rows.append((qual, "input-delete", ast.unparse(n)))
     if qual in NO_EARLY_RETURN:
         rets = [n for n in ast.walk(fn) if isinstance(n, ast.Return)]
         last_is_return = isinstance(fn.body[-1], ast.Return)
         rows.append((qual, "return-count", str(len(rets)) if last_is_return else f"{len(rets)}-not-last"))
-    return rows
+    seen, out = set(), []
+    for r in rows:
+        if r not in seen:
+            seen.add(r)
+            out.append(r)
+    return out
 
 
 def b_effects():
     rows = []
     for file, qual in EFFECT_FUNCS:
-        rows += effects_of(_fn(file, qual), qual)
+        rows += effects_of(_ifn(file, qual), qual)
     return ("/-- stores, augmented assignments, in-place calls and return counts of the functions that decide C09 -/\n"
             "def sens_effects : List (String × String × String) := [\n"
             + ",\n".join(f"  ({_s(a)}, {_s(b)}, {_s(c)})" for a, b, c in rows) + "\n]\n")
@@ -290,13 +711,18 @@ def _cond(node) -> str:
         return "multicoil"
     if isinstance(node, ast.Compare) and len(node.ops) == 1:
         l, r = node.left, node.comparators[0]
-        if isinstance(node.ops[0], ast.In) and ast.unparse(r) == "self.models" and isinstance(l, ast.Constant):
-            if l.value == "sensitivity_model":
-                return "has2d"
-            if l.value == "sensitivity_model_3d":
-                return "has3d"
-        if isinstance(node.ops[0], ast.Eq) and ast.unparse(l) == "self.ndim" and isinstance(_num(r), int):
-            return f"decide (ndim = {_num(r)})"
+        if isinstance(node.ops[0], ast.Gt) and isinstance(_num(r), int) and (
+                (isinstance(l, ast.Subscript) and ast.unparse(l.value).endswith(".shape") and "coil_dim" in ast.unparse(l.slice))
+                or (isinstance(l, ast.Call) and isinstance(l.func, ast.Attribute) and l.func.attr == "size" and l.args
+                    and "coil_dim" in ast.unparse(l.args[0]))):
+            return "multicoil"               # the threshold itself is `engine_multicoil_gt`
+        if isinstance(node.ops[0], (ast.In, ast.NotIn)) and ast.unparse(r) in ("self.models", "self.models.keys()") and isinstance(l, ast.Constant):
+            base = "has2d" if l.value == "sensitivity_model" else "has3d" if l.value == "sensitivity_model_3d" else None
+            if base:
+                return base if isinstance(node.ops[0], ast.In) else f"(!{base})"
+        if isinstance(node.ops[0], (ast.Eq, ast.NotEq)) and ast.unparse(l) == "self.ndim" and isinstance(_num(r), int):
+            c = f"decide (ndim = {_num(r)})"
+            return c if isinstance(node.ops[0], ast.Eq) else f"(!{c})"
     raise Untranslatable(f"condition `{ast.unparse(node)[:60]}`")
 
 
@@ -313,36 +739,89 @@ def _leaf(value) -> str:
     raise Untranslatable(f"refinement leaf `{ast.unparse(value)[:60]}`")
 
 
+def _refines(st) -> bool:
+    return any(isinstance(n, ast.Call) and ast.unparse(n.func).endswith("compute_model_per_coil") for n in ast.walk(st))
+
+
 def _block(stmts) -> str:
-    for st in stmts:
+    """decision tree of the statements that reach `compute_model_per_coil` (other statements are skipped; conditions
+    are resolved through local aliases)"""
+    for q, st in enumerate(stmts):
+        if not _refines(st):
+            continue
         if isinstance(st, ast.If):
-            els = _block(st.orelse) if st.orelse else "0"
-            return f"(if {_cond(st.test)} then {_block(st.body)} else {els})"
-        if isinstance(st, ast.Assign) and "compute_model_per_coil" in ast.unparse(st.value):
+            els = _block(st.orelse) if any(_refines(x) for x in st.orelse) else "0"
+            thn = _block(st.body) if any(_refines(x) for x in st.body) else "0"
+            return f"(if {_cond(inl.resolve(st.test, stmts, q))} then {thn} else {els})"
+        if isinstance(st, (ast.Assign, ast.Return)):
             return _leaf(st.value)
+        raise Untranslatable(f"refinement inside `{type(st).__name__}`")
     raise Untranslatable("a branch without refinement call")
 
 
+def _perm_for(arg, ndim: int, fn) -> list:
+    """the permutation tuple a `permute(arg)` call receives when `self.ndim == ndim`"""
+    def pick(test) -> bool:
+        c = _cond(test)
+        if c == "decide (ndim = 2)":
+            return ndim == 2
+        if c == "(!decide (ndim = 2))":
+            return ndim != 2
+        if c == "decide (ndim = 3)":
+            return ndim == 3
+        raise Untranslatable("permute selector")
+
+    if isinstance(arg, ast.IfExp):
+        return _perm_for(arg.body if pick(arg.test) else arg.orelse, ndim, fn)
+    if isinstance(arg, ast.Tuple) and all(isinstance(_num(e), int) for e in arg.elts):
+        return [int(_num(e)) for e in arg.elts]
+    if isinstance(arg, ast.Name):
+        # a local chosen in an `if self.ndim == 2: … else: …` (single or tuple assignment)
+        def find(stmts):
+            val = None
+            for st in stmts:
+                if isinstance(st, ast.If) and "ndim" in ast.unparse(st.test):
+                    try:
+                        sub = find(st.body if pick(st.test) else st.orelse)
+                    except Untranslatable:
+                        sub = None
+                    if sub is not None:
+                        val = sub
+                elif isinstance(st, ast.If):
+                    for blk in (st.body, st.orelse):
+                        sub = find(blk)
+                        if sub is not None:
+                            val = sub
+                elif isinstance(st, ast.Assign) and len(st.targets) == 1:
+                    t, v = st.targets[0], st.value
+                    if isinstance(t, ast.Name) and t.id == arg.id:
+                        val = v
+                    elif isinstance(t, ast.Tuple) and isinstance(v, ast.Tuple) and len(t.elts) == len(v.elts):
+                        for e, vv in zip(t.elts, v.elts):
+                            if isinstance(e, ast.Name) and e.id == arg.id:
+                                val = vv
+            return val
+        v = find(fn.body)
+        if v is not None and not (isinstance(v, ast.Name) and v.id == arg.id):
+            return _perm_for(v, ndim, fn)
+    raise Untranslatable(f"permute argument `{ast.unparse(arg)[:40]}`")
+
+
 def b_choice():
-    fn = _fn(ENG, "MRIModelEngine.compute_sensitivity_map")
-    ifs = [st for st in fn.body if isinstance(st, ast.If)]
-    if len(ifs) != 1 or ifs[0].orelse:
-        raise Untranslatable("compute_sensitivity_map: expected one top-level `if` without else")
-    body = f"(if {_cond(ifs[0].test)} then {_block(ifs[0].body)} else 0)"
-    perms = []
-    for st in all_stmts(fn):
-        if isinstance(st, ast.Assign) and isinstance(st.value, ast.Call) and isinstance(st.value.func, ast.Attribute) \
-                and st.value.func.attr == "permute" and len(st.value.args) == 1 and isinstance(st.value.args[0], ast.IfExp):
-            ie = st.value.args[0]
-            if _cond(ie.test) != "decide (ndim = 2)":
-                raise Untranslatable("permute selector")
-            tup = lambda t: [int(_num(e)) for e in t.elts]  # noqa: E731
-            perms.append((tup(ie.body), tup(ie.orelse)))
-    if len(perms) != 2:
-        raise Untranslatable(f"{len(perms)} permute calls")
+    fn = _engine_fn()
+    tops = [(q, st) for q, st in enumerate(fn.body) if _refines(st)]
+    if len(tops) != 1 or not isinstance(tops[0][1], ast.If) or any(_refines(x) for x in tops[0][1].orelse):
+        raise Untranslatable("compute_sensitivity_map: expected one top-level `if` around the refinement")
+    q, top = tops[0]
+    body = f"(if {_cond(inl.resolve(top.test, fn.body, q))} then {_block(top.body)} else 0)"
+    pcalls = sorted([n for n in ast.walk(fn) if isinstance(n, ast.Call) and isinstance(n.func, ast.Attribute) and n.func.attr == "permute"
+                     and len(n.args) == 1], key=lambda n: (n.lineno, n.col_offset))
+    if len(pcalls) != 2:
+        raise Untranslatable(f"{len(pcalls)} permute calls")
+    perms = [(_perm_for(c.args[0], 2, fn), _perm_for(c.args[0], 3, fn)) for c in pcalls]
     li = lambda xs: "[" + ", ".join(map(str, xs)) + "]"  # noqa: E731
-    return ("/-- translated from the branch structure of `compute_sensitivity_map` (0 none, 1 2-D model, 2 3-D model, 3 2-D model per "
-            "slice, 4 KeyError) -/\n"
+    return ("/-- translated from the branch structure of `compute_sensitivity_map`, helpers inlined (0 none, 1 2-D model, 2 3-D model, "
+            "3 2-D model per slice, 4 KeyError) -/\n"
             f"def engine_model_choice (multicoil has2d has3d : Bool) (ndim : Int) : Nat :=\n  {body}\n"
             f"def engine_perm_in_2d : List Nat := {li(perms[0][0])}\ndef engine_perm_in_3d : List Nat := {li(perms[0][1])}\n"
             f"def engine_perm_out_2d : List Nat := {li(perms[1][0])}\ndef engine_perm_out_3d : List Nat := {li(perms[1][1])}\n")
